@@ -98,14 +98,17 @@ func c04HeaderSet(set, k int) []refbundle.LHeader {
 	case 4: // names of 23 and 24 bytes (head classes of the map keys), a 256-byte value
 		return []refbundle.LHeader{{Name: c04Pad("X-Name23-", 23, 'N'), Values: []string{"a"}}, {Name: c04Pad("X-Name24-", 24, 'M'), Values: []string{strings.Repeat("v", 256)}}, ct}
 	case 5: // empty value, empty value list
-		return []refbundle.LHeader{{Name: "X-Empty", Values: []string{""}}, {Name: "X-None", Values: []string{}}}
+		return []refbundle.LHeader{{Name: "X-Empty", Values: []string{""}}, {Name: "X-None", Values: []string{}}, {Name: "X-Lead-Empty", Values: []string{"", "b"}}, {Name: "X-All-Empty", Values: []string{"", ""}}, {Name: "X-Trail-Empty", Values: []string{"a", ""}}}
+	case 7: // one field name under two letter cases with other fields between them (only possible by direct map
+		// assignment): not representable - whatever order the map is walked in, the writer must refuse
+		return []refbundle.LHeader{ct, {Name: "X-Dup", Values: []string{"a"}}, {Name: "X-Mid", Values: []string{"m"}}, {Name: "Age", Values: []string{"1"}}, {Name: "x-dup", Values: []string{"b"}}, {Name: "Z-Last", Values: []string{"z"}}}
 	case 6: // values with outer white space (stored and signed verbatim: a reader must not trim them)
 		return []refbundle.LHeader{ct, {Name: "X-Pad", Values: []string{"trailing space "}}, {Name: "X-Pad2", Values: []string{" leading", "\ttab both\t"}}}
 	}
 	panic("c04HeaderSet")
 }
 
-const c04NumHeaderSets = 7
+const c04NumHeaderSets = 8
 
 func c04Signatures(shape int) *refbundle.LSignatures {
 	switch shape {
@@ -938,7 +941,7 @@ func init() {
 	register(&mc.Property{
 		ID:    "C04",
 		Level: "model_checking",
-		Rule:  "choice-tree enumeration of logical bundles: versions b1/b2 x 0..3 exchanges; for n<=2 the full product of URL choices from an 8-shape pool (with replacement) x 8 body-length classes per exchange, for n=3 every ordered triple of distinct URLs; deviation-bounded (1 quick / 2 thorough) header set (7), status (4), primary URL, manifest URL, signatures shape (5), n=3 body class; b1 variant sets: 5 axis shapes x 5 coverage modes x every affected key x insertion permutations x unrelated exchange placement x 2 URLs; each case written to 3 destinations (bytes.Buffer, plain writer, 1-byte ReaderFrom). A case is non-trivial when the reference can represent it and it has at least one exchange (its output is then validated by the strict reference parser, compared field by field with the input and byte for byte with the reference serializer); distinct by logical description. CountingWriter: every operation sequence up to depth 3 (quick) / 4 (thorough) over a 13-operation menu x 3 destinations; non-trivial when at least one byte moved. Reference self-check (no code under test): 26 hand-assembled bundles with one defect each must be refused by the strict validator, the defect-free one accepted (enforced by the vacuity guard).",
+		Rule:  "choice-tree enumeration of logical bundles: versions b1/b2 x 0..3 exchanges; for n<=2 the full product of URL choices from an 8-shape pool (with replacement) x 8 body-length classes per exchange, for n=3 every ordered triple of distinct URLs; deviation-bounded (1 quick / 2 thorough) header set (8), status (4), primary URL, manifest URL, signatures shape (5), n=3 body class; b1 variant sets: 5 axis shapes x 5 coverage modes x every affected key x insertion permutations x unrelated exchange placement x 2 URLs; each case written to 3 destinations (bytes.Buffer, plain writer, 1-byte ReaderFrom). A case is non-trivial when the reference can represent it and it has at least one exchange (its output is then validated by the strict reference parser, compared field by field with the input and byte for byte with the reference serializer); distinct by logical description. CountingWriter: every operation sequence up to depth 3 (quick) / 4 (thorough) over a 13-operation menu x 3 destinations; non-trivial when at least one byte moved. Reference self-check (no code under test): 26 hand-assembled bundles with one defect each must be refused by the strict validator, the defect-free one accepted (enforced by the vacuity guard).",
 		Assumptions: []string{
 			"refbundle (strict validator + reference serializer written from the CDDL of draft-yasskin-wpack-bundled-exchanges (b1) / draft-ietf-wpack-bundled-responses (b2) and the extensions/ documents) and refcbor are correct",
 			"byte equality with the reference serializer is demanded for the section order index,[primary|manifest],[signatures],responses and responses in exchange order (the drafts fix everything else)",
